@@ -25,9 +25,9 @@ Reusable model file (no Mathlib; raw operator classes).  Transcription of the co
 **Defects of the pinned tree and how they are modelled** (they belong to C06; see
 `notes/C04.md` for what changes when the fixes land):
 
-* D3 — `resolvePosition` with no contact pair (`cs = []`, python `contact is None`) returns
-  `state.x_i` **without** renormalising the quaternions that `positionUpdate` has just changed
-  additively;
+* D3 — FIXED in `/repo` (commit ce5b080) and in this model: `resolvePosition` with no contact pair
+  (`cs = []`, python `contact is None`) renormalises the quaternions that `positionUpdate` has just
+  changed additively; before the fix it returned `state.x_i` unchanged;
 * D4 — FIXED in `/repo` (commit 0130879) and in this model: `sphericalize` freezes the unused axes
   of a 1- or 2-dof link at `(0, 0)` also when `dof.limit is None` (`hasLimit = false`); before the
   fix that branch padded them with `(-inf, inf)`.
@@ -418,10 +418,12 @@ def positionSpread (n : Nat) (x_i : List (Tf α)) (cs : List (Contact α))
     ⟨t.pos, normalize4 t.rot⟩
 
 /-- `collisions.resolve_position(sys, state, x_i_prev, contact)`: `(x_i, dlambda)`;
-`cs = []` is `contact is None` (early return **without** renormalisation: defect D3, as in the code) -/
+`cs = []` is `contact is None`: the early return renormalises the rotations
+(`rot = vmap(math.normalize)(state.x_i.rot)[0]`; the code after the `fix:` commit ce5b080 for
+defect D3 — before it the early return handed `state.x_i` back unchanged) -/
 def resolvePosition (s : Sys α) (x_i xPrev : List (Tf α)) (invInertia : List (M3 α))
     (invMass : List α) (cs : List (Contact α)) : List (Tf α) × List α :=
-  if cs.isEmpty then (x_i, [0]) else
+  if cs.isEmpty then (x_i.map fun t => ⟨t.pos, normalize4 t.rot⟩, [0]) else
   let tr := cs.map (translate s.collideScale x_i xPrev invInertia invMass)
   (positionSpread s.numLinks x_i cs (tr.map fun t => (t.1, t.2.1)), tr.map (·.2.2))
 
